@@ -105,6 +105,11 @@ def Z5c(n=3, m=1, buf=1, mx=2):  # the longer stream of a two-port process is pr
                 procs=[src("s1", items(n, "a")), cmd("a", ["in"]), src("s2", items(m, "b")), cmd("j", ["x", "y"])],
                 edges=[E("s1.out", "a.in"), E("a.out", "j.x"), E("s2.out", "j.y")])
 
+def Z5cL(n=3, m=1, buf=1, mx=2):  # Z5c with a port-less leaf behind the join: Run is driven by the leaf while the abandoned upstream 'a' still executes
+    return dict(name="Z5cL", max=mx, bufsize=buf,
+                procs=[src("s1", items(n, "a")), cmd("a", ["in"]), src("s2", items(m, "b")), cmd("j", ["x", "y"]), cmd("leaf", ["x"], [])],
+                edges=[E("s1.out", "a.in"), E("a.out", "j.x"), E("s2.out", "j.y"), E("j.out", "leaf.x")])
+
 def Z20(n=6, buf=2, mx=2):     # a process stops reading early (port z closes after one item) while ONE upstream keeps feeding two of its other ports
     return dict(name="Z20", max=mx, bufsize=buf,
                 procs=[src("s1", items(n, "a")), cmd("sp", ["in"], ["o1", "o2"]), src("s2", items(1, "b")), cmd("j", ["x", "y", "z"])],
@@ -159,7 +164,7 @@ def ZSPL(n=2, buf=2, mx=2, lines=1):     # a FileSplitter behind a file source: 
     return dict(name="ZSPL", max=mx, bufsize=buf, procs=[src("s", items(n)), dict(name="sp", kind="splitter", arg=str(lines)), cmd("b", ["in"])],
                 edges=[E("s.out", "sp.file"), E("sp.split_file", "b.in")])
 
-ZOO = dict(ZSPLT=ZSPLT, ZSPL=ZSPL, ZCAT=ZCAT, Z20=Z20, Z4T=Z4T, Z21=Z21, PC3=PC3, PC2S=PC2S, FC2=FC2, FCS=FCS, Z17=Z17, Z18=Z18, Z19=Z19, Z5c=Z5c, Z1=Z1, Z2=Z2, Z3=Z3, Z4=Z4, Z5=Z5, Z6=Z6, Z7=Z7, Z8=Z8, Z9=Z9, Z10=Z10, Z13=Z13, Z14=Z14,
+ZOO = dict(Z5cL=Z5cL, ZSPLT=ZSPLT, ZSPL=ZSPL, ZCAT=ZCAT, Z20=Z20, Z4T=Z4T, Z21=Z21, PC3=PC3, PC2S=PC2S, FC2=FC2, FCS=FCS, Z17=Z17, Z18=Z18, Z19=Z19, Z5c=Z5c, Z1=Z1, Z2=Z2, Z3=Z3, Z4=Z4, Z5=Z5, Z6=Z6, Z7=Z7, Z8=Z8, Z9=Z9, Z10=Z10, Z13=Z13, Z14=Z14,
            Z15=Z15, Z16=Z16, Z5b=Z5b)
 
 # ----------------------------------------------------------------------------
